@@ -33,6 +33,8 @@ Decides:
                           with fallback_to_usage would turn a stray item into usage on stdout) - shared with C08.
  T ambiguity     the tokenizer's "cannot split this cluster" error leaves run_inner as the failure in every build configuration; only a
                         completion request (known right after tokenizing) proceeds without it (shared with C10).
+ T one registry   collect_shorts passes its two accumulators straight through every level: one global table, so a letter that is a flag here and an
+                        argument there is reported as ambiguous instead of being split (shared with C02).
 Does not decide: that no combination of shapes double-delivers an item through scope arithmetic."""
 import re
 from core import *
